@@ -14,6 +14,7 @@
 -/
 import AM.Lemmas.MatcherClassicRT
 import AM.Lemmas.MatcherUTF8RT
+import AM.Lemmas.MatcherTotal
 
 namespace AM.Mt
 open AM
@@ -139,6 +140,37 @@ theorem brace_guard_rejects_classic_input :
     utf8Matcher (fun _ => true) [.ch 'f', .ch '=', .ch 'b', .ch '}'] = .err .syntax ∧
     fallbackMatcher (fun _ => true) [.ch 'f', .ch '=', .ch 'b', .ch '}'] = .err .brace := by
   decide
+
+/-! ### totality -/
+
+theorem fallbackChoose_total {α : Type} [DecidableEq α] (n : Outcome α) (c : Except Err α)
+    (h : n ≠ .panic ∧ n ≠ .fuel) : fallbackChoose n c ≠ .panic ∧ fallbackChoose n c ≠ .fuel := by
+  unfold fallbackChoose
+  cases n with
+  | panic => exact absurd rfl h.1
+  | fuel => exact absurd rfl h.2
+  | err e => cases c <;> simp
+  | ok nm =>
+    cases c with
+    | error e => simp
+    | ok cm => by_cases hx : nm = cm <;> simp [hx]
+
+/-- No input makes a parser panic or loop.  The classic parsers (`classicMatcher`,
+    `classicMatchers : Str → Except Err _`) are structural recursions, total by
+    construction; the UTF-8 automaton never reaches one of the `panic(...)` sites of
+    parse.go and always stops within its fuel `3·|input| + 6`; the fallback
+    parsers inherit both. -/
+theorem parsers_total (compiles : Str → Bool) (s : Str) :
+    (utf8Matchers compiles s ≠ .panic ∧ utf8Matchers compiles s ≠ .fuel) ∧
+    (utf8Matcher compiles s ≠ .panic ∧ utf8Matcher compiles s ≠ .fuel) ∧
+    (fallbackMatchers compiles s ≠ .panic ∧ fallbackMatchers compiles s ≠ .fuel) ∧
+    (fallbackMatcher compiles s ≠ .panic ∧ fallbackMatcher compiles s ≠ .fuel) := by
+  refine ⟨utf8Matchers_total compiles s, utf8Matcher_total compiles s, ?_, ?_⟩
+  · exact fallbackChoose_total _ _ (utf8Matchers_total compiles s)
+  · unfold fallbackMatcher
+    split
+    · simp
+    · exact fallbackChoose_total _ _ (utf8Matcher_total compiles s)
 
 /-! ### match semantics -/
 
